@@ -180,6 +180,8 @@ def cases():
         ('remove_literal_statements', 'class_doc_used', 'class Documented:\n    """class docstring"""\n    attribute = 1\nprint(Documented.__doc__)\n', True),
         ('combine_imports', 'future_import', 'from __future__ import annotations\nfrom __future__ import division\nimport os\nimport sys\nprint(os.sep)\n', False),
         ('combine_imports', 'star_between', 'from os.path import join\nfrom os.path import *\nfrom os.path import split\nprint(join("a", "b"))\n', False),
+        ('combine_imports', 'relative_levels_same_module', 'try:\n    from .util import helper\n    from ..util import shared\n    from ...util import deep\n    from .util import other\nexcept ImportError as e:\n    print(type(e).__name__)\n', False),
+        ('combine_imports', 'relative_and_absolute_same_module', 'try:\n    from util import helper\n    from .util import shared\n    from . import util\n    from .. import util as parent_util\nexcept ImportError as e:\n    print(type(e).__name__)\n', False),
         ('combine_imports', 'relative', 'try:\n    from . import sibling\n    from . import other\n    from .. import parent\nexcept ImportError as e:\n    print(type(e).__name__)\n', False),
         ('remove_builtin_exception_brackets', 'shadowed_global', 'class ValueError(Exception):\n    def __init__(self):\n        super().__init__("custom")\ntry:\n    raise ValueError()\nexcept Exception as caught:\n    print(caught.args)\n', True),
         ('remove_builtin_exception_brackets', 'imported_name', 'from builtins import KeyError as ValueError\ntry:\n    raise ValueError()\nexcept KeyError as caught:\n    print("KeyError")\n', True),
